@@ -15,8 +15,8 @@
      prefilters.  These are checked on the implementation at every position by harness leg c03-accel
      (candidate finder vs table of successful attempts) and replayed through this model by leg
      c03-scanmodel. *)
-From Verif Require Import Base.Prelude Model.Tree Model.Spec Model.Scan Model.Finder
-  Proofs.ScanProofs Proofs.ScanBumpProofs Proofs.FinderProofs.
+From Verif Require Import Base.Prelude Base.Utf8 Model.Tree Model.Spec Model.Scan Model.Finder Model.Analysis
+  Proofs.ScanProofs Proofs.ScanBumpProofs Proofs.FinderProofs Proofs.FinderCompose.
 
 (* ---- the generic theorem ------------------------------------------------------------------
    sc_H1_true : finder p = (true,q)  -> q at-or-beyond p, in the text, no match in [p,q)
@@ -713,4 +713,139 @@ Example C03_finder_default_witness :
   fd_find_first_char_default fz_text fz_set_in fx_low false ANCH_BEGINNING 0 None None (Some fz_opts) None 3 = Ok (false, 8) /\
   fd_find_first_char_default fz_text fz_set_in fx_low false 0 0 None (Some (fun p => if p <=? 2 then 2 else -1)) None None 3
     = Ok (false, 8).
+Proof. vm_compute. repeat split; reflexivity. Qed.
+
+
+(* =========================================================================================
+   End to end, on a tree, for the modes whose fact C04 proves for the analysis (Model/Analysis.v):
+       the analysis publishes the mode  =>  scanning with that mode's finder returns what Spec.find returns.
+   One attempt of the matcher is Spec.attempt ([bp_exec e fuel root bumpq], C03_find_is_naive_scan);
+   hypotheses common to all four: the tree is well-shaped (C04's shape_ok / no_ci_lit / look_ok), the
+   attempts have enough fuel, and (H3) for the matcher - which holds trivially without the bump-along
+   shortcut (C03_H3_without_bumpalong) and by C03_bump_discharges_H3 with it.
+   [facts false lu root] is the published FindOptimizations record (MinRequiredLength, anchors, mode,
+   LeadingPrefix); [fc_opts_of_facts] reads it as the runner does ([]rune(LeadingPrefix) = runes_of).
+   For the modes whose fact C04 does not prove (fixed-distance sets / char / string, leading strings,
+   ignore-case prefix, literal after loop, landmark chain, first-character set) the per-finder
+   theorems above carry the fact as their explicit hypothesis (fd_fds_fact, fd_lal_fact, ...).
+   ========================================================================================= *)
+
+Theorem C03_H3_without_bumpalong :
+  forall (e : env) (fuel : nat) (root : node) (bumpq : Z -> Z),
+    (forall p, bumpq p = p) -> forall rtl, sc_H3 st (tlen e) rtl (bp_exec e fuel root bumpq).
+Proof. exact fc_H3_id. Qed.
+Print Assumptions C03_H3_without_bumpalong.
+
+(* MinRequiredLength alone (FindMode NoSearch, no FcPrefix / Boyer-Moore prefix / anchor bit): runner.go:170-180,
+   both directions *)
+Theorem C03_mode_min_length_sound :
+  forall (e : env) (fuel : nat) (root : node) (bumpq : Z -> Z) (rtl : bool),
+    shape_ok rtl root = true ->
+    (forall x, 0 <= x <= tlen e -> exists r, attempt e fuel root x = Ok r) ->
+    sc_H3 st (tlen e) rtl (bp_exec e fuel root bumpq) ->
+    forall start prevlen, 0 <= start <= tlen e ->
+    exists r, find e fuel root rtl start prevlen = Ok r /\
+      scan (tlen e) rtl (min_len root)
+           (fd_total (fd_find_first_char_default (txt e) (set_in e) (lower e) rtl 0 (tstart e) None None None None))
+           (bp_exec e fuel root bumpq) start prevlen = Ok r.
+Proof. exact fc_min_length_cut_sound. Qed.
+Print Assumptions C03_mode_min_length_sound.
+
+(* Code.Anchors names a leading \A, \G, \Z or \z (left-to-right) / trailing one (right-to-left):
+   the anchor jumps of findFirstCharDefault, whatever FindOptimizations and FcPrefix hold *)
+Theorem C03_mode_anchor_sound :
+  forall (e : env) (fuel : nat) (root : node) (bumpq : Z -> Z) (rtl : bool),
+    shape_ok rtl root = true ->
+    (forall x, 0 <= x <= tlen e -> exists r, attempt e fuel root x = Ok r) ->
+    sc_H3 st (tlen e) rtl (bp_exec e fuel root bumpq) ->
+    forall (a : anchor) (o : option fdopts) (fc : option fdfc),
+    get_anchors root = anchor_bit a ->
+    a = ABeginning \/ a = AStart \/ a = AEndZ \/ a = AEnd ->
+    forall start prevlen, 0 <= start <= tlen e ->
+    exists r, find e fuel root rtl start prevlen = Ok r /\
+      scan (tlen e) rtl (min_len root)
+           (fd_total (fd_find_first_char_default (txt e) (set_in e) (lower e) rtl (get_anchors root) (tstart e)
+                        None None o fc))
+           (bp_exec e fuel root bumpq) start prevlen = Ok r.
+Proof. exact fc_mode_anchor_sound. Qed.
+Print Assumptions C03_mode_anchor_sound.
+
+(* TrailingAnchor_FixedLength_LeftToRight_End: trailing \z and min length = max length *)
+Theorem C03_mode_trailing_end_sound :
+  forall (e : env) (fuel : nat) (root : node) (bumpq : Z -> Z) (later_useful : bool),
+    shape_ok false root = true -> no_ci_lit root = true -> look_ok root = true ->
+    (forall x, 0 <= x <= tlen e -> exists r, attempt e fuel root x = Ok r) ->
+    sc_H3 st (tlen e) false (bp_exec e fuel root bumpq) ->
+    f_mode (facts false later_useful root) = FM_TrailingAnchor_FixedLength_LeftToRight_End ->
+    forall start prevlen, 0 <= start <= tlen e ->
+    exists r, find e fuel root false start prevlen = Ok r /\
+      scan (tlen e) false (f_min (facts false later_useful root))
+           (fd_total (fd_optimized_finder (txt e) (set_in e) (lower e) (fc_opts_of_facts (facts false later_useful root))))
+           (bp_exec e fuel root bumpq) start prevlen = Ok r.
+Proof. exact fc_mode_trailing_end_sound. Qed.
+Print Assumptions C03_mode_trailing_end_sound.
+
+(* LeadingString_LeftToRight: the published LeadingPrefix is a BYTE string (C04_find_prefix_sound); when it
+   is the UTF-8 encoding of valid runes P (so []rune(LeadingPrefix) = P) and the text holds valid runes, the
+   leading-string finder is sound.  (The prefix of an alternation can be cut inside a multi-byte rune;
+   then the hypothesis fails, []rune gives U+FFFD and the theorem says nothing - runner.go serves this mode
+   through the Boyer-Moore prefix of getPrefix, not through this finder.) *)
+Theorem C03_mode_leading_string_sound :
+  forall (e : env) (fuel : nat) (root : node) (bumpq : Z -> Z) (later_useful : bool),
+    shape_ok false root = true -> no_ci_lit root = true -> look_ok root = true ->
+    (forall x, 0 <= x <= tlen e -> exists r, attempt e fuel root x = Ok r) ->
+    sc_H3 st (tlen e) false (bp_exec e fuel root bumpq) ->
+    forall P : list Z,
+    f_mode (facts false later_useful root) = FM_LeadingString_LeftToRight ->
+    forallb valid_rune P = true -> forallb valid_rune (txt e) = true ->
+    f_prefix (facts false later_useful root) = encode_string P ->
+    forall start prevlen, 0 <= start <= tlen e ->
+    exists r, find e fuel root false start prevlen = Ok r /\
+      scan (tlen e) false (f_min (facts false later_useful root))
+           (fd_total (fd_optimized_finder (txt e) (set_in e) (lower e) (fc_opts_of_facts (facts false later_useful root))))
+           (bp_exec e fuel root bumpq) start prevlen = Ok r.
+Proof. exact fc_mode_leading_string_sound. Qed.
+Print Assumptions C03_mode_leading_string_sound.
+
+(* ---- witnesses on concrete trees ---- *)
+
+(* ab\z on "xabab": the analysis publishes mode 9 with length 2; the finder jumps from 0 to 3; same match *)
+Definition ex_root_abz : node := NCapture 0 0 (-1) (NConcat 0 [NMulti 0 [97; 98]; NAnchor AEnd]).
+Example C03_mode_trailing_end_witness :
+  let e := ex_env [120; 97; 98; 97; 98] in
+  let f := facts false false ex_root_abz in
+  shape_ok false ex_root_abz = true /\ no_ci_lit ex_root_abz = true /\ look_ok ex_root_abz = true /\
+  f_mode f = FM_TrailingAnchor_FixedLength_LeftToRight_End /\ f_min f = 2 /\
+  fd_optimized_finder (txt e) (set_in e) (lower e) (fc_opts_of_facts f) 0 = Ok (true, 3) /\
+  find e 10 ex_root_abz false 0 (-1) = Ok (Some {| pos := 5; caps := [(0, [(3, 2)])] |}) /\
+  scan 5 false 2 (fd_total (fd_optimized_finder (txt e) (set_in e) (lower e) (fc_opts_of_facts f)))
+       (bp_exec e 10 ex_root_abz (fun p => p)) 0 (-1) = Ok (Some {| pos := 5; caps := [(0, [(3, 2)])] |}).
+Proof. vm_compute. repeat split; reflexivity. Qed.
+
+(* abc[a-z] as the tree "abc" + set on "xxabcd": mode 11, prefix "abc" = encode_string [97;98;99]; finder jumps to 2 *)
+Definition ex_root_abcw : node := NCapture 0 0 (-1) (NConcat 0 [NMulti 0 [97; 98; 99]; NChar CSet 0 0]).
+Example C03_mode_leading_string_witness :
+  let e := {| txt := [120; 120; 97; 98; 99; 100]; tstart := 0; ecma := false; endz_strict := false;
+              set_in := fun _ x => (97 <=? x) && (x <=? 122); lower := fun x => x;
+              is_word := fun _ => false; is_eword := fun _ => false |} in
+  let f := facts false false ex_root_abcw in
+  f_mode f = FM_LeadingString_LeftToRight /\ f_min f = 4 /\ f_prefix f = encode_string [97; 98; 99] /\
+  runes_of (f_prefix f) = [97; 98; 99] /\
+  fd_optimized_finder (txt e) (set_in e) (lower e) (fc_opts_of_facts f) 0 = Ok (true, 2) /\
+  fd_optimized_finder (txt e) (set_in e) (lower e) (fc_opts_of_facts f) 3 = Ok (false, 6) /\
+  find e 10 ex_root_abcw false 0 (-1) = Ok (Some {| pos := 6; caps := [(0, [(2, 4)])] |}) /\
+  scan 6 false 4 (fd_total (fd_optimized_finder (txt e) (set_in e) (lower e) (fc_opts_of_facts f)))
+       (bp_exec e 10 ex_root_abcw (fun p => p)) 0 (-1) = Ok (Some {| pos := 6; caps := [(0, [(2, 4)])] |}).
+Proof. vm_compute. repeat split; reflexivity. Qed.
+
+(* \Aab on "abab" searched from 2: Code.Anchors = Beginning, the finder gives up at once; same (no) match *)
+Definition ex_root_Aab : node := NCapture 0 0 (-1) (NConcat 0 [NAnchor ABeginning; NMulti 0 [97; 98]]).
+Example C03_mode_anchor_witness :
+  let e := ex_env [97; 98; 97; 98] in
+  get_anchors ex_root_Aab = anchor_bit ABeginning /\
+  fd_find_first_char_default (txt e) (set_in e) (lower e) false (get_anchors ex_root_Aab) 0 None None None None 2 = Ok (false, 4) /\
+  find e 10 ex_root_Aab false 2 (-1) = Ok None /\
+  scan 4 false 2 (fd_total (fd_find_first_char_default (txt e) (set_in e) (lower e) false (get_anchors ex_root_Aab) 0 None None None None))
+       (bp_exec e 10 ex_root_Aab (fun p => p)) 2 (-1) = Ok None /\
+  find e 10 ex_root_Aab false 0 (-1) = Ok (Some {| pos := 2; caps := [(0, [(0, 2)])] |}).
 Proof. vm_compute. repeat split; reflexivity. Qed.
